@@ -258,7 +258,31 @@ func goDecIns(doc []byte) (res string) {
 	if err := json.Unmarshal(doc, &p); err != nil {
 		return "err " + classify(err)
 	}
+	// the same document decoded into a value that has been used before (it holds the previous
+	// complete document): decoding must not depend on what the target held
+	if hasAll(doc, "inputHash", "startIndex", "preRoot", "postRoot", "identityCommitments", "merkleProofs") {
+		if prevIns != nil {
+			var q prover.InsertionParameters
+			if json.Unmarshal(prevIns, &q) == nil {
+				if err := json.Unmarshal(doc, &q); err != nil || canonIns(&q) != canonIns(&p) {
+					return fmt.Sprintf("ok-into-a-fresh-value-but-not-into-a-used-one: fresh=%s used=%s err=%v", canonIns(&p), canonIns(&q), err)
+				}
+			}
+		}
+		prevIns = append([]byte{}, doc...)
+	}
 	return "ok " + canonIns(&p)
+}
+
+var prevIns, prevDel []byte
+
+func hasAll(doc []byte, keys ...string) bool {
+	for _, k := range keys {
+		if !strings.Contains(string(doc), `"`+k+`"`) {
+			return false
+		}
+	}
+	return true
 }
 
 func goDecDel(doc []byte) (res string) {
@@ -270,6 +294,17 @@ func goDecDel(doc []byte) (res string) {
 	var p prover.DeletionParameters
 	if err := json.Unmarshal(doc, &p); err != nil {
 		return "err " + classify(err)
+	}
+	if hasAll(doc, "inputHash", "deletionIndices", "preRoot", "postRoot", "identityCommitments", "merkleProofs") {
+		if prevDel != nil {
+			var q prover.DeletionParameters
+			if json.Unmarshal(prevDel, &q) == nil {
+				if err := json.Unmarshal(doc, &q); err != nil || canonDel(&q) != canonDel(&p) {
+					return fmt.Sprintf("ok-into-a-fresh-value-but-not-into-a-used-one: fresh=%s used=%s err=%v", canonDel(&p), canonDel(&q), err)
+				}
+			}
+		}
+		prevDel = append([]byte{}, doc...)
 	}
 	return "ok " + canonDel(&p)
 }
